@@ -420,10 +420,15 @@ func (h *history) watchStep(i int, op histOp) {
 	c.r.Eval(1)
 	c.r.Nontrivial("history/status")
 	c.r.Count("history/steps/status", 1)
-	l := ch.at(h.lastServed.Height)
-	if l == nil || st.LatestHeight != l.blk.Height || st.LatestHash != l.blk.Hash || !st.LatestTime.Equal(l.blk.Time) || st.LatestStateRoot != l.blk.StateRoot {
+	// The Core broadcasts a block before it records it as the latest one, so the status may
+	// still show the previously accepted block: whichever it shows must be header-bound.
+	if st.LatestHeight == 0 {
+		return
+	}
+	l := ch.at(st.LatestHeight)
+	if l == nil || st.LatestHash != l.blk.Hash || !st.LatestTime.Equal(l.blk.Time) || st.LatestStateRoot != l.blk.StateRoot {
 		c.r.Violation("c19/block/accepted-altered/status-latest-block"+histSuffix,
-			fmt.Sprintf("Core.GetStatus reports latest height %d hash %s time %s, which is not the header-bound block last accepted", st.LatestHeight, st.LatestHash, st.LatestTime.Format(time.RFC3339Nano)), wit())
+			fmt.Sprintf("Core.GetStatus reports latest height %d hash %s time %s state root %+v, which is not the block bound to the header of that height", st.LatestHeight, st.LatestHash, st.LatestTime.Format(time.RFC3339Nano), st.LatestStateRoot), wit())
 	}
 }
 
@@ -564,10 +569,10 @@ func (c *checker) phaseHistory() {
 		return
 	}
 	c.recordedPairHistory()
-	nchains := c.r.Pick(2, 6)
+	nchains := c.r.Pick(4, 12)
 	nheights := c.r.Pick(8, 12)
-	nhist := c.r.Pick(8, 16)
-	nops := c.r.Pick(500, 4000)
+	nhist := c.r.Pick(16, 32)
+	nops := c.r.Pick(1500, 8000)
 	type job struct {
 		ch         *chain
 		ci, hi     int
